@@ -278,6 +278,25 @@ func (lc *lenChecker) minLen(x ssa.Value, at *ssa.BasicBlock, depth int) int64 {
 		if c, ok := constInt(v.Len); ok {
 			up(c)
 		}
+	case *ssa.Phi:
+		// a window sliding over a slice, `for w := xs; len(w) != 0; w = w[k:]`: if len(xs) is a
+		// multiple of k so is every len(w), and a non-empty window holds at least k elements
+		if len(v.Edges) == 2 && best >= 1 {
+			var init ssa.Value
+			var step *ssa.Slice
+			for i, e := range v.Edges {
+				if isBackEdge(v.Block().Preds[i], v.Block()) {
+					step, _ = e.(*ssa.Slice)
+				} else {
+					init = e
+				}
+			}
+			if step != nil && init != nil && step.X == ssa.Value(v) && step.High == nil && step.Low != nil {
+				if k, ok := constInt(step.Low); ok && k > 0 && modGuard(init, k, v.Block()) {
+					up(k)
+				}
+			}
+		}
 	}
 	return best
 }
@@ -728,6 +747,23 @@ func checkLoops(ctx *Ctx, r *Report, fn *ssa.Function) {
 				continue
 			}
 			c, _ := stripNot(iff.Cond)
+			// a window that shrinks by a positive constant each turn, tested on its length
+			if bo, isB := c.(*ssa.BinOp); isB {
+				for _, side := range []ssa.Value{bo.X, bo.Y} {
+					if arg, isLen := lenCallOf(side); isLen {
+						if wp, isPhi := arg.(*ssa.Phi); isPhi && wp.Block() == b && len(wp.Edges) == 2 {
+							for i, e := range wp.Edges {
+								if sl, isSl := e.(*ssa.Slice); isSl && isBackEdge(b.Preds[i], b) && sl.X == ssa.Value(wp) && sl.High == nil && sl.Low != nil {
+									if k, okK := constInt(sl.Low); okK && k > 0 {
+										ok = true
+										why = "window shrinking by a constant"
+									}
+								}
+							}
+						}
+					}
+				}
+			}
 			switch x := c.(type) {
 			case *ssa.BinOp:
 				if x.Op == token.LSS || x.Op == token.LEQ || x.Op == token.GTR || x.Op == token.GEQ || x.Op == token.NEQ {
